@@ -211,6 +211,8 @@ def c03(res: Result):
     tasks += gadget_tasks("gk", [[{"op": "block", "maa": True, "optsrc": True, "exact": False, "size": z}, {"op": "skiprem"}] for z in (2, 3, 5)])
     tasks += feature_tasks("fb", [[{"op": "block", "maa": m, "optsrc": o, "exact": False, "size": -1}] for m in (True, False) for o in (True, False)]
                            + [[{"op": "scc", "maa": m}] for m in (True, False)] + [[{"op": "build"}]])
+    tasks += gadget_tasks("gb", [[{"op": "block", "maa": m, "optsrc": o, "exact": False, "size": -1}] for m in (True, False) for o in (True, False)]
+                          + [[{"op": "scc", "maa": m}] for m in (True, False)] + [[{"op": "build"}]])
     invs = ["Inv_MinExact", "Inv_WF"]
     res.cov["rule"] = ("Random and TLC-generated prefixes of plain expansion calls (with limits) followed by a strategy from the root "
                        "(BFS, DFS, minimal-space with/without skip_ignored, attractor-seed, skip_remaining), and block / source-SCC / build on "
@@ -1096,8 +1098,11 @@ def c18(res: Result):
     extra = [f3(5, [lambda s: s[0], lambda s: s[1] or s[0], lambda s: s[2] or s[0], lambda s: s[4] and not s[0], lambda s: s[3]]),
              f3(4, [lambda s: s[0], lambda s: (s[1] and s[0]) or (s[2] and not s[0]), lambda s: s[2] and s[1], lambda s: not s[3] or s[0]]),
              f3(4, [lambda s: s[0], lambda s: s[1] or s[0], lambda s: s[2] and (s[1] or not s[0]), lambda s: s[3] and s[2]])]
+    # inputs that change the logic of a downstream module without changing its variable set (gadgets of round 4)
+    extra += [gen.gadget_networks()[k] for k in ("src_gate", "src_maa_gate", "src_xor_scc", "src_xor_scc2")]
     for j, tt in enumerate(extra):
-        for ops in (None, [{"op": "build"}, {"op": "allsets"}], [{"op": "block", "maa": False, "optsrc": True, "exact": False, "size": -1}, {"op": "allsets"}]):
+        for ops in (None, [{"op": "build"}, {"op": "allsets"}], [{"op": "block", "maa": False, "optsrc": True, "exact": False, "size": -1}, {"op": "allsets"}],
+                    [{"op": "block", "maa": True, "optsrc": True, "exact": False, "size": -1}, {"op": "allsets"}]):
             t = {"kind": "below", "tid": f"x{j}_{len(tw)}", "tt": tt}
             if ops:
                 t["ops"] = ops
